@@ -1,7 +1,11 @@
 import Dashu.Proofs.NT.ModReducerU
+import Dashu.Proofs.NT.ModResidueU
+import Dashu.Props.C13
 /-
   C13 (round 7) — `impl Reducer<UBig> for ConstDivisor` (`integer/src/modular/reducer.rs`) on C01's mirrored `UBig`
   representation: link theorem to C01's kernels (`TRepr.add_spec`, `TRepr.sub_ok`, `TRepr.shl_spec`, `TRepr.cmp_spec`, imported).
+  Round 8: `Reducer<UBig>::residue` / `is_zero` through C02's mirrored `shr_in_place` (`Div.shrInPlace_spec`, imported) and C01's
+  `Repr::from_buffer` (`fromBuffer_value / _canon`), composed with the round-7 theorem and `Props.C13.reducer_ops`.
 -/
 namespace Dashu.Props.C13Reducer
 open Dashu.Model Dashu.Model.NT
@@ -102,5 +106,104 @@ example : (∃ r, Ring.new 64 0 (2 ^ 128 - 159) = .ok r ∧ r.kind = .double ∧
       (rAddU 64 r (ofNat 64 (1000002 * 2 ^ 44)) (ofNat 64 (2 * 2 ^ 44))).map (·.value 64) = .ok (1 * 2 ^ 44) ∧
       (rNegU 64 r (ofNat 64 0)).map (·.value 64) = .ok 0) :=
   ⟨⟨_, rfl, rfl, by decide, by decide +kernel, by decide +kernel⟩, ⟨_, rfl, rfl, by decide, by decide +kernel, by decide +kernel⟩⟩
+
+/-- **`Reducer<UBig>::residue` / `is_zero` through C02's mirrored `shr_in_place` and C01's mirrored `Repr::from_buffer`**
+    (`reducer.rs`: `Small(dw)` ⇒ `from_word(shrink_dword(dw).unwrap() >> shift)` in a single-word ring, `from_dword(dw >> shift)`
+    otherwise; `Large(buffer)` ⇒ `debug_assert_zero!(shift::shr_in_place(&mut buffer, d.shift)); from_buffer(buffer)` in a multi-word
+    ring, `unreachable!()` otherwise): on a canonical operand that passes `check` (`Valid`) in any ring `ConstDivisor::new` builds,
+    for every word size, the `unwrap` succeeds, no `>>` overflows, no bit is shifted out (the debug assertion holds), the
+    `unreachable!()` arm is not reached; the result is canonical, is `target / 2^shift` (what the driver prints for every
+    `r.*` operation) and lies in `[0, m)`; `is_zero` decides `residue = 0`.  Composed with `reducer_ubig_link` and `reducer_ops`:
+    `residue(add(x, y))`, `residue(dbl(x))`, `residue(sub(x, y))`, `residue(neg(x))` on the representation are
+    `(x̄ + ȳ) mod m`, `(x̄ + x̄) mod m`, the `d` with `(d + ȳ) mod m = x̄`, the `d` with `(d + x̄) mod m = 0`. -/
+theorem reducer_residue_link (W id m : Nat) (hW : 0 < W) (r : Ring) (hnew : Ring.new W id m = .ok r)
+    (a b : TRepr) (ha : a.Canon W) (hb : b.Canon W) (hx : Valid r (a.value W)) (hy : Valid r (b.value W)) :
+    (∃ c, rResidueU W r a = .ok c ∧ c.Canon W ∧ c.value W = a.value W / 2 ^ r.k ∧ c.value W < r.m) ∧
+    (rIsZeroU a = true ↔ a.value W / 2 ^ r.k = 0) ∧
+    (∃ s c, rAddU W r a b = .ok s ∧ rResidueU W r s = .ok c ∧ c.Canon W ∧
+      c.value W = (a.value W / 2 ^ r.k + b.value W / 2 ^ r.k) % r.m) ∧
+    (∃ s c, rDblU W r a = .ok s ∧ rResidueU W r s = .ok c ∧ c.Canon W ∧
+      c.value W = (a.value W / 2 ^ r.k + a.value W / 2 ^ r.k) % r.m) ∧
+    (∃ s c, rSubU W r a b = .ok s ∧ rResidueU W r s = .ok c ∧ c.Canon W ∧ c.value W < r.m ∧
+      (c.value W + b.value W / 2 ^ r.k) % r.m = a.value W / 2 ^ r.k) ∧
+    (∃ s c, rNegU W r a = .ok s ∧ rResidueU W r s = .ok c ∧ c.Canon W ∧ c.value W < r.m ∧
+      (c.value W + a.value W / 2 ^ r.k) % r.m = 0) := by
+  have hwf := Ring.new_wf hW hnew
+  have hkW : r.kind = .large → r.k ≤ W := fun hk => Nat.le_of_lt (Ring.new_large_k hW hnew hk)
+  have hp : 0 < 2 ^ r.k := Nat.two_pow_pos _
+  have res : ∀ {t : TRepr}, t.Canon W → Valid r (t.value W) →
+      ∃ c, rResidueU W r t = .ok c ∧ c.Canon W ∧ c.value W = t.value W / 2 ^ r.k ∧ c.value W < r.m := by
+    intro t ht hv
+    obtain ⟨c, e1, e2, e3⟩ := rResidueU_spec hwf hkW ht hv
+    obtain ⟨u, hu, eu⟩ := hv
+    exact ⟨c, e1, e2, e3, by rw [e3, eu, Nat.mul_div_cancel _ hp]; exact hu⟩
+  obtain ⟨l1, l2, l3, l4⟩ := reducer_ubig_link W id m hW r hnew a b ha hb hx hy
+  obtain ⟨⟨o1, o1'⟩, ⟨o2, o2'⟩, ⟨o3, o3'⟩⟩ := Dashu.Props.C13.reducer_ops W r hwf _ _ hx hy
+  obtain ⟨⟨o4, o4'⟩, _, _⟩ := Dashu.Props.C13.reducer_ops W r hwf _ _ hx hx
+  refine ⟨res ha hx, ?_, ?_, ?_, ?_, ?_⟩
+  · obtain ⟨u, hu, eu⟩ := hx
+    rw [eu, Nat.mul_div_cancel _ hp]
+    unfold rIsZeroU
+    cases a with
+    | small d =>
+      simp only [TRepr.value] at eu
+      cases d with
+      | zero =>
+        have : u = 0 := by
+          rcases Nat.mul_eq_zero.mp eu.symm with h | h
+          · exact h
+          · omega
+        simp [TRepr.isZero, this]
+      | succ n =>
+        have : u ≠ 0 := by intro h; rw [h, Nat.zero_mul] at eu; omega
+        simp [TRepr.isZero, this]
+    | large ws =>
+      have hge := ha.large_ge
+      simp only [TRepr.value] at eu
+      have : u ≠ 0 := by
+        intro h; rw [h, Nat.zero_mul] at eu
+        have : 0 < 2 ^ (2 * W) := Nat.two_pow_pos _
+        omega
+      simp [TRepr.isZero, this]
+  · obtain ⟨s, e1, e2, e3⟩ := l1
+    obtain ⟨c, f1, f2, f3, _⟩ := res e2 (by rw [e3]; exact o1)
+    exact ⟨s, c, e1, f1, f2, by rw [f3, e3, o1']⟩
+  · obtain ⟨s, e1, e2, e3⟩ := l2
+    obtain ⟨c, f1, f2, f3, _⟩ := res e2 (by rw [e3]; exact o4)
+    exact ⟨s, c, e1, f1, f2, by rw [f3, e3, o4']⟩
+  · obtain ⟨s, e1, e2, e3⟩ := l3
+    obtain ⟨c, f1, f2, f3, f4⟩ := res e2 (by rw [e3]; exact o2)
+    exact ⟨s, c, e1, f1, f2, f4, by rw [f3, e3, o2']⟩
+  · obtain ⟨s, e1, e2, e3⟩ := l4
+    obtain ⟨c, f1, f2, f3, f4⟩ := res e2 (by rw [e3]; exact o3)
+    exact ⟨s, c, e1, f1, f2, f4, by rw [f3, e3, o3']⟩
+
+/-- non-vacuity (W = 64): a 3-word ring with shift 3 — the residue of a heap operand (`shr_in_place` by 3 bits, nothing shifted
+    out, `from_buffer`), of an inline operand (`dw >> 3`), of a heap operand whose quotient becomes inline (pop_zeros to two
+    words); a single-word ring with shift 44 (`shrink_dword(..).unwrap() >> 44`) and a double-word ring with shift 0;
+    `residue(add(..))` of a wrapping sum; `is_zero` -/
+example : (∃ r, Ring.new 64 0 (2 ^ 188 + 12345) = .ok r ∧ r.kind = .large ∧ r.k = 3 ∧
+      (ofNat 64 ((2 ^ 188 + 12000) * 2 ^ 3)).Canon 64 ∧ Valid r ((ofNat 64 ((2 ^ 188 + 12000) * 2 ^ 3)).value 64) ∧
+      rResidueU 64 r (ofNat 64 ((2 ^ 188 + 12000) * 2 ^ 3)) = .ok (ofNat 64 (2 ^ 188 + 12000)) ∧
+      rResidueU 64 r (ofNat 64 (500 * 2 ^ 3)) = .ok (.small 500) ∧
+      rResidueU 64 r (ofNat 64 ((2 ^ 127 + 5) * 2 ^ 3)) = .ok (.small (2 ^ 127 + 5)) ∧
+      ((rAddU 64 r (ofNat 64 ((2 ^ 188 + 12000) * 2 ^ 3)) (ofNat 64 (500 * 2 ^ 3))).bind (rResidueU 64 r)) = .ok (.small 155) ∧
+      rIsZeroU (ofNat 64 (500 * 2 ^ 3)) = false ∧ rIsZeroU (ofNat 64 0) = true) ∧
+    (∃ r, Ring.new 64 0 1000003 = .ok r ∧ r.kind = .single ∧ r.k = 44 ∧
+      rResidueU 64 r (ofNat 64 (1000002 * 2 ^ 44)) = .ok (.small 1000002)) ∧
+    (∃ r, Ring.new 64 0 (2 ^ 128 - 159) = .ok r ∧ r.kind = .double ∧ r.k = 0 ∧
+      rResidueU 64 r (ofNat 64 (2 ^ 128 - 160)) = .ok (.small (2 ^ 128 - 160))) :=
+  ⟨⟨_, rfl, rfl, by decide, by decide +kernel, by decide +kernel, by decide +kernel, by decide +kernel, by decide +kernel,
+      by decide +kernel, by decide +kernel, by decide +kernel⟩,
+   ⟨_, rfl, rfl, by decide, by decide +kernel⟩, ⟨_, rfl, rfl, by decide, by decide +kernel⟩⟩
+
+/-- the error arms are real: an operand that does NOT pass `check` (low shift bit set) trips the debug assertion; a heap operand
+    in a single-word ring reaches `unreachable!()`; a two-word inline operand in a single-word ring fails the `unwrap` -/
+example : (∃ r, Ring.new 64 0 (2 ^ 188 + 12345) = .ok r ∧
+      rResidueU 64 r (ofNat 64 ((2 ^ 188 + 12000) * 2 ^ 3 + 1)) = .error (.undocumented "reducer.rs: debug_assert_zero!(shr_in_place)")) ∧
+    (∃ r, Ring.new 64 0 1000003 = .ok r ∧
+      rResidueU 64 r (ofNat 64 (2 ^ 130)) = .error (.undocumented "reducer.rs: unreachable!()") ∧
+      rResidueU 64 r (ofNat 64 (2 ^ 64)) = .error (.undocumented "reducer.rs: shrink_dword(dw).unwrap() on None")) :=
+  ⟨⟨_, rfl, by decide +kernel⟩, ⟨_, rfl, by decide +kernel, by decide +kernel⟩⟩
 
 end Dashu.Props.C13Reducer
